@@ -85,6 +85,26 @@ def width_product(R, B, rng):
                     else:
                         R.check(len(got) == 1 and got[0].hash == r.hash, 'root-differs-small-bag', f'{n}-cell bag ({desc}) parsed to another root', {'boc': b})
         R.case(mon.fp('wp', ti))
+    # several roots in every position and order, repeated roots included, for a three-cell bag under every admissible width
+    r3 = rc.RC('11', (rc.RC('0', (rc.RC(''),)), rc.RC('')))
+    cells3 = rc.topo_order([r3])
+    import itertools as _it
+    for k in (1, 2, 3, 4):
+        for roots in _it.product(cells3, repeat=k):
+            if r3.hash not in {x.hash for x in roots}:
+                continue          # every cell must be reachable from some root
+            for size, off, kw in ((1, 1, {}), (2, 1, dict(has_idx=True)), (4, 8, dict(has_crc=True)), (3, 2, dict(has_idx=True, has_cache_bits=True, has_crc=True))):
+                try:
+                    b = rc.encode_boc(list(roots), size=size, off_bytes=off, **kw)
+                except rc.RefError:
+                    continue
+                st, got = mon.call(B.Cell.from_boc, b)
+                R.counters['oracle_evaluations'] += 1
+                R.count('multi_root_encodings')
+                if st == 'exc':
+                    R.violation(f'valid-encoding-rejected-roots{k}', f'conforming encoding with {k} roots (size {size}, off {off}, {kw}) rejected: {got!r}', {'boc': b, 'roots': k})
+                else:
+                    R.check([g.hash for g in got] == [x.hash for x in roots], f'roots-differ-{k}-roots', f'{k} roots: returned roots differ from the root list (count, order or cells)', {'boc': b, 'roots': k})
 
 
 def must_reject(R, B, data, key, what, W):
